@@ -19,6 +19,12 @@ CHECKS = {
             'world) is replayed on fresh objects and the canonical state (probe answers, RNG engine, other world alive) is compared with a history-free world.',
             'Alphabets: 8 request atoms, 4 worlds, 9 operations; nothing beyond the stated list length / history depth is claimed. All traces are implementation traces.',
             'DESIGN.md section 3 C01'),
+    'C16': ('exploration', 'E1',
+            'bounded exhaustive enumeration (full product of create_world argument combinations x worlds) with a differential oracle against the native World object',
+            'Every combination of world, output-flag pointer, output-directory argument and seed is passed through create_world and the C++ wrapper; every C function and wrapper method is '
+            'compared bit-for-bit with a native World built from the same arguments at every lattice point and for every request list of length <= 2, and the declaration files must appear exactly in the requested directory.',
+            'Argument alphabet as stated (3 flag pointers, 3 directory strings, 3 seeds, 4 worlds); thorough tier equals quick tier because the space is already the full product.',
+            'DESIGN.md section 3 C16'),
 }
 NOT_YET = {}
 
